@@ -247,6 +247,8 @@ class Check:
         return exe
 
     def run_model(self, exe: str, lines: list[str], timeout=1200) -> list[str] | None:
+        if not lines:
+            return []          # nothing to evaluate (a batch of oracle-only schedules): not a model failure
         rc, out, err = sh([exe], input="\n".join(lines) + "\n", timeout=timeout)
         if rc != 0:
             self.broken("model-run", exe, err[-2000:])
